@@ -143,8 +143,10 @@ class FakeStream(trio.abc.HalfCloseableStream):
                 raise trio.ClosedResourceError("can't send data after sending EOF")
             if self.closed:
                 raise trio.ClosedResourceError("this socket was already closed")
-            await trio.lowlevel.checkpoint()
+            # like trio's socket send: only a cancellation check first, the syscall is attempted before yielding
+            await trio.lowlevel.checkpoint_if_cancelled()
             if not data:
+                await trio.lowlevel.cancel_shielded_checkpoint()
                 return
             while True:
                 if self.closed:
@@ -164,13 +166,13 @@ class FakeStream(trio.abc.HalfCloseableStream):
                     break
                 await self._send_lot.park()
             data = bytes(data)
-            if self.world.finished:
-                return
-            self.rec.out.extend(data)
-            self.rec.out_chunks.append((self.world.now(), data))
-            cl = self.rec.client
-            if cl is not None:
-                cl.on_server_bytes(data, self.world.now())
+            if not self.world.finished:
+                self.rec.out.extend(data)
+                self.rec.out_chunks.append((self.world.now(), data))
+                cl = self.rec.client
+                if cl is not None:
+                    cl.on_server_bytes(data, self.world.now())
+            await trio.lowlevel.cancel_shielded_checkpoint()
         finally:
             self._sending = False
 
@@ -200,15 +202,17 @@ class FakeStream(trio.abc.HalfCloseableStream):
                 raise ValueError("max_bytes must be >= 1")
             if self.closed:
                 raise trio.ClosedResourceError("this socket was already closed")
-            await trio.lowlevel.checkpoint()
+            await trio.lowlevel.checkpoint_if_cancelled()
             while True:
                 if self.closed:
                     raise trio.ClosedResourceError("another task closed this socket")
                 if self.inbox:
                     data = bytes(self.inbox[:max_bytes])
                     del self.inbox[:max_bytes]
+                    await trio.lowlevel.cancel_shielded_checkpoint()
                     return data
                 if self.terminal == "eof":
+                    await trio.lowlevel.cancel_shielded_checkpoint()
                     return b""
                 if isinstance(self.terminal, BaseException):
                     self.broken = True
@@ -543,6 +547,15 @@ class TrioWorld(WorldBase):
             return self.shutdown_event is not None and not self.shutdown_event.is_set()
         if kind == "terminate":  # conn-level stand-in for "shutdown has begun"
             return self.context is not None and not self.context.terminated.is_set()
+        if kind == "wait_status":  # pseudo event: the client has seen a response head (h2: on stream ev[2])
+            rec = self.conns.get(ev[1])
+            cl = None if rec is None else rec.client
+            if cl is None:
+                return False
+            if cl.h2 is not None and cl.h1 is None:
+                st = cl.h2.streams.get(ev[2] if len(ev) > 2 else 1)
+                return st is not None and st["status"] is not None
+            return cl.h1 is not None and bool(cl.h1.responses)
         if kind == "wait_closed":
             rec = self.conns.get(ev[1])
             return rec is not None and rec.closed_at is not None
@@ -590,7 +603,7 @@ class TrioWorld(WorldBase):
         elif kind == "terminate":
             self.shutdown_at = self.now()
             self.context.terminated._event.set()
-        elif kind in ("wait_closed", "wait_idle"):
+        elif kind in ("wait_closed", "wait_idle", "wait_status"):
             pass
         elif kind == "call":
             ev[1](self)
